@@ -112,6 +112,8 @@ def note_distribution(st, recipe, geo, bm):
     if all(id(con.column[0]) in colset and id(con.column[1]) in colset for con in geo.connectionlist):
         h['connection columns are columns of the geometry'] += 1
     if geo.atmosphere_type in (0, 1, 2): h['atmosphere_type in 0..2'] += 1
+    if all(abs(float(c.area) - L.shoelace([n.pos for n in c.node], signed=True)) <= 1e-9 * max(1.0, abs(float(c.area))) for c in geo.columnlist):
+        h['areas_from_nodes (col.area is polygon_area of the node positions)'] += 1
     pairs = [(con.column[0].name, con.column[1].name) for con in geo.connectionlist]
     if len(set(pairs)) == len(pairs): h['hpairs_distinct (ordered column pairs of the connections differ)'] += 1
     if not (geo.gdcx or geo.gdcy): h['untilted (hypothesis of the dircos theorems only)'] += 1
@@ -308,6 +310,7 @@ def run(ctx):
                         'the name lists of the geometry are current (setup_block_name_index / setup_block_connection_name_index called after surfaces change, as the library and its tests do)',
                         'layer objects are identified by their unique names (layerlist.index); connection columns are members of columnlist',
                         'the atmosphere layer has zero thickness and layers are contiguous (identify_layer_tops), every column surface lies above the bottom of the last layer',
+                        'column polygons are lists of node positions (column.polygon), for which polygon_area / polygon_centroid do not alias their argument; polygons of fewer than 3 nodes are not modelled for the centroid',
                         'tie T: a column connection joins exactly two columns along an edge with two nodes (comprehensions over con.column / con.node are expanded to two elements); numpy division does not raise (the ZeroDivisionError handler of line_projection is dead); con is a member of connectionlist',
                         'no two column connections join the same ordered pair of columns (hypothesis hpairs_distinct of fromgeo_conns_eq_name_list_derived; measured)',
                         'square roots are outside the model: distances, areas and cosines that involve a norm are carried as coef*sqrt(rad) with rational coef, rad']
